@@ -262,6 +262,8 @@ func (s *StateMachine) ApplyTransactions(ctx context.Context, txs [][]byte, r *l
 	startTime := time.Now()
 	// use a map to check for 'same-block' duplicate transactions
 	deDuplicator := lib.NewDeDuplicator[string]()
+	// the same signed content may not execute twice in a block either (whatever its bytes / signature form)
+	contentDeDuplicator := lib.NewDeDuplicator[string]()
 	// use a batch verifier for signatures
 	batchVerifier := crypto.NewBatchVerifier()
 	// get the governance parameter for max block size
@@ -330,6 +332,12 @@ func (s *StateMachine) ApplyTransactions(ctx context.Context, txs [][]byte, r *l
 		// check if the transaction is a 'same block' duplicate
 		if found := deDuplicator.Found(hashString); found {
 			return lib.ErrDuplicateTx(hashString)
+		}
+		if decoded := new(lib.Transaction); lib.Unmarshal(tx, decoded) == nil {
+			if contentHash, e := decoded.ContentHash(); e == nil && contentDeDuplicator.Found(lib.BytesToString(contentHash)) {
+				r.AddFailed(lib.NewFailedTx(tx, lib.ErrDuplicateTx(hashString)))
+				continue
+			}
 		}
 		// get the tx size
 		txSize := uint64(len(tx))
